@@ -32,6 +32,17 @@ def run(ctx, only=None):
     src = os.path.join(extract.VERIF, "witness")
     work = os.path.join(extract.CACHE, "witness-" + extract.tree_hash()[:12] + ("-mut" if extract.REPO != "/repo" else ""))
     done = os.path.join(work, "RESULT.txt")
+    import fcntl
+    lock = open(os.path.join(extract.CACHE, "witness.lock"), "w")
+    fcntl.flock(lock, fcntl.LOCK_EX)        # one witness build at a time: the cargo target directory is shared (and capped)
+    try:
+        return _run_locked(res, src, work, done, only)
+    finally:
+        fcntl.flock(lock, fcntl.LOCK_UN)
+        lock.close()
+
+
+def _run_locked(res, src, work, done, only):
     if not os.path.exists(done):
         shutil.rmtree(work, ignore_errors=True)
         os.makedirs(os.path.join(work, "src"))
